@@ -126,7 +126,7 @@ def fmt(n, adj, request):
     return "deps{%s} request[%s]" % (",".join("t%d>t%d" % e for e in edges(n, adj)), ",".join("t%d" % i for i in request))
 
 
-def execute(n, adj, request, via, project=None):
+def execute(n, adj, request, via, project=None, runner=None):
     """Run the real runner; returns (kind, detail, history) with kind in ok / loop / exc."""
     from ppci.build.tasks import TaskRunner, TaskError
     import sys
@@ -150,7 +150,7 @@ def execute(n, adj, request, via, project=None):
             proj.default = nm[request[0]] if request else None
             TaskRunner().run(proj, [])
         else:
-            TaskRunner().run(project if project is not None else build_project(n, adj), [nm[i] for i in request])
+            (runner if runner is not None else TaskRunner()).run(project if project is not None else build_project(n, adj), [nm[i] for i in request])
     except TaskError as ex:
         return "loop", ex, list(HISTORY)
     except Exception as ex:  # noqa
@@ -230,7 +230,8 @@ def history_worker(p, shard, n):
     register()
     """K2 'start from non-initial states': two-step histories on ONE Project object -- run(request1) [which may end in a loop
     report], optionally add_dependency(i, j), then run(request2).  The second run on the re-used project must behave exactly
-    like the same request on a freshly built project with the current graph (which the main family judges against the reference)."""
+    like the same request on a freshly built project with the current graph (which the main family judges against the reference).
+    Likewise one TaskRunner object used for two runs must behave like a fresh runner on the second."""
     from vf.gen.graphs import adj_from_code
     nm = names(n)
     subsets = [[i for i in range(n) if m >> i & 1] for m in range(1, 1 << n)]
@@ -262,6 +263,19 @@ def history_worker(p, shard, n):
                                         ",".join(nm[i] for i in r2), got, want), wit)
                     elif len(got[2]) >= 2:
                         p.outcome(("hist", got))
+                    if ed is None:
+                        # one TaskRunner object used for two runs (each on a fresh project): the second run must not see the first
+                        from ppci.build.tasks import TaskRunner
+                        runner = TaskRunner()
+                        first_b = execute(n, adj0, r1, "direct", runner=runner)
+                        p.add()
+                        p.count("history_runs_same_runner")
+                        got_b = outcome_of(execute(n, adj0, r2, "direct", runner=runner))
+                        if got_b != want:
+                            wit = {"history": True, "n": n, "adj": list(adj0), "first": r1, "edit": None, "request": r2, "same_runner": True}
+                            p.violation("history/same-runner-after-%s/differs-from-fresh-runner" % first_b[0],
+                                        "%s: after run(%s) -> %s, run(%s) with the same TaskRunner object (fresh project) gives %r; a fresh runner gives %r" % (
+                                            fmt(n, adj0, r1), ",".join(nm[i] for i in r1), first_b[0], ",".join(nm[i] for i in r2), got_b, want), wit)
 
 
 GRAPHS = {}
